@@ -11,5 +11,6 @@ CONSTANTS
   GCLag = 0
   CheckStay = FALSE
   Deviation = "none"
+  GCMode = "strict"
 INVARIANTS InvAnswers InvStay InvProp
 CHECK_DEADLOCK FALSE
